@@ -13,13 +13,19 @@ Elements of width w > 0 are the vectors [v, v+1000, .., v+1000(w-1)]; they are c
 checking the pattern), so the model works over Z throughout.
 """
 import itertools
+import os
+import sys
 import numpy as np
-from core import cz, cn, cb, clist, copt
+from core import cz, cn, cb, clist, copt, VERIF
+sys.path.insert(0, os.path.join(VERIF, "translator"))
+import tr_ragged
 
 PID = "C05"
 PROPS_FILE = "Props/C05.v"
-MODEL_TARGETS = ["Model/Ragged.vo"]
-CASE_HEADER = ("From Coq Require Import List ZArith Bool.\nFrom EV Require Import PySlice Ragged.\n"
+MODEL_TARGETS = ["Model/Ragged.vo", "Gen/RaGen.vo", "Model/RaggedGen.vo"]
+GEN_FILES = ["Gen/RaGen.v"]
+CASE_HEADER = ("From Coq Require Import List ZArith Bool.\n"
+               "From EV Require Import PySlice RaBase RaGen Ragged RaggedGen.\n"
                "Import ListNotations.\n")
 RULE = ("thorough: exhaustive small scope -- all 84 length vectors with <= 3 rows of length 1..4; for each: every "
         "single row index and (row, col) element with indices in -5..5; every row slice a[s:e:k] and every 2-D slice "
@@ -28,9 +34,18 @@ RULE = ("thorough: exhaustive small scope -- all 84 length vectors with <= 3 row
         "masks are sampled (600 per vector) because their product space is too large; constructors alternate between "
         "nested lists / list of arrays / flat+lengths list / flat+lengths ndarray. Plus random arrays up to 6 rows x "
         "12 with scalar and 2-/3-wide elements. quick: 3000 of the small-scope reads plus 600 random ones. "
+        "every read is evaluated twice in Coq: on the hand-written model (get_c) and on the read assembled from "
+        "the definitions regenerated from the current ra.py (get_g: gen_conv2d, gen_starts, gen_slice_to_list, "
+        "gen_conv1d, gen_iis_from_*); attrs cases also compare gen_starts with the real starts. "
         "non-trivial := at least 2 rows, and the read either succeeds with a non-empty result that is not the "
         "whole array or is an error case")
-TRUSTED = ["modelled not verified: NumPy basic/fancy indexing of the row-object array (_array[i], _array[slice], "
+TRUSTED = ["translator/tr_ragged.py + translator/py2coq.py: _slice_to_list whole (dynamic int-or-None fragment); the scalar "
+           "tests/wraps/offsets of _handle_negative_indices, _convert_from_2d, _convert_from_1d and the starts "
+           "expression translated; the NumPy statement shapes recognised and plugged into the per-element "
+           "skeletons of Base/RaBase.v; _get_iis_from_slices/_get_iis_from_list/where and the call sites in "
+           "__getitem__ pinned as text (any other shape: rejected)",
+           "modelled not verified: slice.indices, range, NumPy broadcasting of the two index vectors",
+           "modelled not verified: NumPy basic/fancy indexing of the row-object array (_array[i], _array[slice], "
            "_array[list]) and of the flat data (_data[flat indices]), np.cumsum, np.where, np.concatenate",
            "harness canonicalisation: a RaggedArray result is read back through its rows (_array), its flat data "
            "and its lengths, and these three must agree"]
@@ -42,6 +57,10 @@ SHARD = 400
 STEPS = [None, 1, -1, 2, -2, 3, -3]
 BND = [None] + list(range(-5, 6))
 CTORS = ["nested", "nested_np", "flat", "flat_np"]
+
+
+def translate(repo):
+    return tr_ragged.translate(repo)
 
 
 # ----------------------------------------------------------------------------- generation
@@ -417,26 +436,30 @@ def coq_check(c, r):
         if "err" in r:
             return "false"
         shape2 = r["shape"][1]
-        return ("check_attrs %s %s %s %s %s %s %s %s" % (
+        return ("check_attrs %s %s %s %s %s %s %s %s && zlist_eqb (gen_starts %s) %s" % (
             conc, clist(r["lengths"], cn, "nat"), clist(r["starts"], cn, "nat"), cn(r["len"]),
             copt(shape2, cn, "nat"), cn(r["size"] // max(1, c["w"])), clist(r["iter"], _czl, "(list Z)"),
-            _czl(r["flatten"][::max(1, c["w"])])))
+            _czl(r["flatten"][::max(1, c["w"])]), _czl(r["lengths"]), _czl(r["starts"])))
+    # every read is evaluated on the hand-written model (get_c) and on the read assembled from the
+    # definitions regenerated from the current source (get_g)
     if "err" in r:
         if r["err"] == "IndexError":
-            return "result_eqb (get_c %s %s) Err" % (conc, _cidx(c["idx"]))
+            return "result_eqb (get_c %s %s) Err && result_eqb (get_g %s %s) Err" % (
+                conc, _cidx(c["idx"]), conc, _cidx(c["idx"]))
         return "false"
-    t = "result_eqb (get_c %s %s) %s" % (conc, _cidx(c["idx"]), _cres(r))
+    t = "result_eqb (get_c %s %s) %s && result_eqb (get_g %s %s) %s" % (
+        conc, _cidx(c["idx"]), _cres(r), conc, _cidx(c["idx"]), _cres(r))
     if c["idx"]["k"] == "mask":
-        t = "(%s) && where_eqb (where_c %s) %s %s" % (
-            t, clist(c["idx"]["m"], lambda m: clist(m, cb, "bool"), "(list bool)"),
-            clist(r["where"][0], cn, "nat"), clist(r["where"][1], cn, "nat"))
+        m = clist(c["idx"]["m"], lambda m: clist(m, cb, "bool"), "(list bool)")
+        wr, wc = clist(r["where"][0], cn, "nat"), clist(r["where"][1], cn, "nat")
+        t = "(%s) && where_eqb (where_c %s) %s %s && where_g_eqb (where_g %s) %s %s" % (t, m, wr, wc, m, wr, wc)
     return t
 
 
 def coq_show(c):
     if c["idx"]["k"] == "attrs":
         return "show_attrs %s" % _cconc(c)
-    return "get_c %s %s" % (_cconc(c), _cidx(c["idx"]))
+    return "(get_c %s %s, get_g %s %s)" % (_cconc(c), _cidx(c["idx"]), _cconc(c), _cidx(c["idx"]))
 
 
 def nontrivial(c, r):
